@@ -66,22 +66,41 @@ def run(ctx):
         "float64 is modelled by exact rational arithmetic (core Lean `Rat`); the correspondence run only uses inputs "
         "(small dyadic rationals; contour queries filtered so that every quotient is representable) on which every "
         "float64 operation of the source is exact, and demands equality of the exact values (both zeros print as 0)",
-        "Go int overflow of X+Width is outside the model: int rectangles are generated up to the corners of the int64 "
-        "range (the pair is shifted so that its largest computed edge is MaxInt or MaxInt-1, or its smallest MinInt or "
-        "MinInt+1, and to 2^40..2^61), but only so that no intermediate value of the source leaves int64; inputs on "
-        "which Go would wrap are not generated",
+        "Go int overflow: the rectangle layer is ALSO run at Int64 with wrap-around (stream `rw` of area rect: the same "
+        "polymorphic functions of Model/Geom.lean at Lean's Int64), on inputs where X+Width, the recomputed sizes of "
+        "Intersect/Union/Expand or Width-insets overflow (edges 1..12 beyond MaxInt/MinInt, origins and sizes at the "
+        "limits, rectangles three quarters of the range apart); Go and the model must wrap identically. "
+        "C18.int64_agrees / contains_iff_int64 / intersects_iff_int64 / intersect_spec_int64 prove the laws for machine "
+        "integers under explicit no-overflow conditions, C18.int64_wrap_contrast shows them fail beyond. The `ri` "
+        "stream (model at Int) keeps to inputs on which no intermediate value of the source leaves int64 (pairs shifted "
+        "to the corners of the range and to 2^40..2^61); the arith stream likewise",
         "Matrix.Rotate/NewRotationMatrix are modelled with (sin, cos) as parameters; the harness passes the float64 "
         "values of math.Sin/math.Cos (exact comparison on matrices whose products with them are exact); the general "
         "rotation laws are checked implementation-side (area `rotate`, no Lean model): Rotate, RotateByDegrees, "
         "NewRotationMatrix, NewRotationByDegreesMatrix and n-fold Rotate (n up to 4000, against one rotation by n*theta) "
         "within 16 ulp (n*16) RELATIVE to the sum of the absolute terms of each coordinate, no absolute slack; angles "
         "densely within 1e-3..1e-12 of the quarter turns",
-        "Contour.Bounds starts its min/max loop at the first vertex instead of at +/-MaxFloat64 (same result for finite "
-        "coordinates)",
+        "Contour.Bounds / Polygon.Bounds are run in the form of the source (Model/GeomExt.lean boundsSrc: min/max loop "
+        "started at (MaxFloat64, MaxFloat64, -MaxFloat64, -MaxFloat64), sizes by extent() with its guard; the guarded "
+        "Nextafter branch is a stub because C18.extent_guard_dead proves it unreachable in exact arithmetic); "
+        "C18.bounds_src_rat proves this equal to the closed form the bounds theorems are about",
+        "area `arith`: Point Add/Sub/Mul/Div/Neg/Dot/Cross/Floor/Ceil/EqualWithin, Size Add/Sub/Mul/Div/Floor/Ceil/Min/Max/"
+        "ConstrainForHint, Rect.Center/Align, ConvertPoint/ConvertSize/ConvertRect at Go int and at float64 (exact "
+        "dyadic values); the operations that differ between the two types are parameters of the model (int division "
+        "truncates and panics on zero; Floor/Ceil are the identity on int; float division by zero prints +inf/-inf/nan); "
+        "inputs on which Go int arithmetic would wrap are not generated",
+        "Polygon.Empty, Contour.Clone and Polygon.Clone are modelled as values (area `poly`, ops pempty/pclone/cclone); "
+        "that Clone returns nil for length 0, leaves the operand untouched and shares no storage with it is observed "
+        "on the Go side and printed as part of the compared line",
+        "NOT modelled: Rect.IntersectsLine (and line.go), the String methods, the JSON tags, the clipping operations "
+        "of poly (Union/Intersect/Sub/Xor: other files)",
     ]
     ctx.assumptions += [
-        "float rounding and integer overflow are not covered by the theorems: the Lean model computes in exact "
-        "arithmetic (Int, Rat) and the model-vs-code streams only use inputs on which every float operation is exact",
+        "float rounding is not covered by the theorems: the Lean model computes in exact arithmetic (Int, Rat; Int64 with "
+        "wrap-around for the rectangle layer) and the model-vs-code streams only use inputs on which every float "
+        "operation is exact; integer overflow is covered for the rectangle predicates/Intersect/Union by the Int64 "
+        "theorems under their stated no-overflow conditions, and is outside the theorems for Expand, Inset and the "
+        "Point/Size arithmetic",
         "what is evidenced under float rounding, exactly (no tolerance), by the implementation-side oracle `floatspec` "
         "on non-dyadic float64/float32 inputs of tiny, large and mixed magnitudes: Rect Contains / Intersects / "
         "Intersect / Union / Point.In (below); Contour.Bounds (every vertex In the bounds, strict) and Polygon.Bounds "
@@ -90,9 +109,12 @@ def run(ctx):
         "(identity.TransformPoint(p) = p, identity*m = m = m*identity, Translate(0,0), Scale(1,1)); Contour.Contains / "
         "Polygon.Contains / ContainsEvenOdd away from edges (exact crossing number in big.Rat; a case is judged only "
         "if the point keeps a margin of 64 eps times the coordinate magnitudes from every edge whose Y range holds "
-        "it, otherwise counted as near-edge). NOT evidenced under rounding: the composition laws of Multiply / "
-        "Translate / Scale (for them only the exact-arithmetic theorems plus exactly representable inputs are "
-        "checked; Rotate has the relative 16-ulp oracle `rotate`)",
+        "it, otherwise counted as near-edge). The composition laws of Multiply / Translate / Scale under rounding are "
+        "evidenced by the implementation-side oracle `compose` (non-dyadic float64/float32 entries of mixed magnitudes, "
+        "translation-only / scale-only / identity / quarter-turn operands: m.Multiply(n).TransformPoint(p), "
+        "m.Translate(..).TransformPoint(p), m.Scale(..).TransformPoint(p) against the exact composition computed in "
+        "big.Rat, within 16 ulp of the sum of the absolute terms of the coordinate, no absolute slack); Rotate has the "
+        "relative 16-ulp oracle `rotate`",
         "Contour.Bounds: the absorbed 1 of Width = 1+maxX-minX at large magnitudes (far vertices not In the bounds, or "
         "Empty bounds that Polygon.Bounds ignored) was repaired in /repo (commit c8f36a0); every generated bounds case "
         "is judged strictly at contour level and the four inputs of the defect run on every check "
@@ -133,13 +155,20 @@ def run(ctx):
     tg = lambda l, o: " ".join(l.split()[:2])
     th = "C18.%s (model = specification); impl != model on this input"
     ctx.diff(area="rect", driver="drv_c18", timeout=300, n={"quick": 400000, "thorough": 4000000}, tagger=tg,
-             theorem=th % "contains_iff / intersects_iff / intersect_spec / union_covers / union_smallest / empty_absorbs")
+             theorem=th % "contains_iff / intersects_iff / intersect_spec / union_covers / union_smallest / empty_absorbs / "
+                          "expand_spec / inset_spec / int64_agrees (stream rw)")
     ctx.diff(area="matrix", driver="drv_c18", timeout=300, n={"quick": 200000, "thorough": 2000000}, tagger=tg,
              theorem=th % "transform_multiply / transform_translate / transform_scale / transform_rotate / identity_neutral")
     ctx.diff(area="poly", driver="drv_c18", timeout=300, n={"quick": 120000, "thorough": 2000000}, tagger=tg,
-             theorem=th % "contour_contains_crossing / evenodd_spec / bounds_encloses / transform_maps_vertices")
+             theorem=th % "contour_contains_crossing / evenodd_crossing / polygon_contains_crossing / bounds_encloses / "
+                          "bounds_tight / bounds_src_rat / transform_maps_vertices / transform_compose / empty_polygon")
+    ctx.diff(area="arith", driver="drv_c18", timeout=300, n={"quick": 160000, "thorough": 2000000}, tagger=tg,
+             theorem=th % "transform_point_arith / constrain_spec / expand_spec / inset_spec")
     ctx.impl_oracle("rotate", n={"quick": 20000, "thorough": 400000},
                     label="rotation law with rounding sin/cos products, tolerance 16 ulp of the largest term")
+    _oracle(ctx, "compose", {"quick": 60000, "thorough": 1500000},
+            "composition laws of Multiply / Translate / Scale and the identity under rounding (non-dyadic float64/float32 "
+            "entries), against the exact composition in big.Rat, tolerance 16 ulp of the sum of the absolute terms")
     _oracle(ctx, "floatspec", {"quick": 300000, "thorough": 6000000},
             "point-set specifications of Contains/Intersects/Intersect/Union on the extreme representable points of "
             "non-dyadic float64/float32 rectangles")
